@@ -192,7 +192,11 @@ int main (int argc, char *argv[]) {
             goto error2;
         }
         data = calloc(dict_size, 1);
-        assert(data);
+        if(data == NULL) {
+            LOG_ERROR("Unable to allocate %lli bytes for the dictionary\n",
+                      (long long) dict_size);
+            goto error2;
+        }
         ssize_t read_size = zck_get_chunk_data(dict, data, dict_size);
         if(read_size != dict_size) {
             if(read_size < 0)
